@@ -168,7 +168,43 @@ func famPairsPT(tw *traceWriter, r *rand.Rand, n int) {
 	}
 }
 
+// C17: one schema object used at several places of a larger schema behaves at each place as an independent copy would
+func famShared(tw *traceWriter, r *rand.Rand, n int) {
+	for i := 0; i < n; i++ {
+		g := genCfg{maxDepth: 2}
+		mode := pick(r, []string{"parse", "validate"})
+		sch := genStruct(r, g, 0)
+		for len(sch.Kids) < 2 {
+			sch = genStruct(r, g, 0)
+		}
+		// place the very same node (pointer) at two or three positions: sibling fields, and inside a slice / behind a pointer
+		src := sch.Kids[0].Node
+		sch.Kids[1].Node = src
+		if len(sch.Kids) > 2 {
+			switch r.Intn(3) {
+			case 0:
+				sch.Kids[2].Node = slice(src, false, None, nil, nil)
+			case 1:
+				if src.K != "ptr" {
+					sch.Kids[2].Node = ptr(src, r.Intn(2) == 0)
+				}
+			}
+		}
+		c := &Case{ID: fmt.Sprintf("sh%d", i), Mode: mode, Fe: "map", Schema: sch, shared: true}
+		if mode == "parse" {
+			c.Input = genParseInput(r, sch, "map")
+			if c.Input.T == "missing" {
+				c.Input = nilIn()
+			}
+		} else {
+			c.Input = genValue(r, sch)
+		}
+		tw.emitCase(c, "c17s", true)
+	}
+}
+
 func init() {
+	families["shared"] = famShared
 	families["pairspt"] = famPairsPT
 	families["tags"] = famTags
 	families["callbacks"] = famCallbacks
